@@ -51,8 +51,14 @@ def classify_diff(d, f0, f1):
     return bad
 
 
-def _under_function_call(path):
-    return True
+def _shape(a):
+    """root-cause oriented shape of an inference alarm: the position kind; for an uninferable type argument also
+    whether the call sits in a branch of a conditional (a different cause: the conditional's recorded type stands
+    in for the expected type in the dependency graph)"""
+    s = 'position kind: %s' % a[0]
+    if a[0] == 'kotlin-cannot-infer-type-argument' and '[in conditional branch]' in str(a[4]):
+        s += ' (call in a conditional branch)'
+    return s
 
 
 class Oracle:
@@ -158,10 +164,17 @@ class Oracle:
             if (a[0], a[1]) in base_alarms:
                 continue
             vs.append({'rule': 'erased-program-ill-typed', 'site': 'src/transformations/type_erasure.py',
-                       'shape': 'position kind: %s' % a[0],
+                       'shape': _shape(a),
                        'path': a[1], 'expected': a[2], 'found': a[3], 'extra': str(a[4])[:300]})
-        # (3) javac
-        if lang == 'java' and self.use_javac and x.T1:
+        # (3) javac.  A hand-built family program is only judged by javac when its unmutated translation compiles
+        # (the Java translator's type hints do not cover every hand-built shape; C02 is about generated programs)
+        self._javac_here = self.use_javac
+        if lang == 'java' and self.use_javac and x.config.family_index() is not None and x.T0:
+            ok0, _ = self._javac_ok(x.T0)
+            if not ok0:
+                self.stats['family_java_baseline_rejected'] = self.stats.get('family_java_baseline_rejected', 0) + 1
+                self._javac_here = False
+        if lang == 'java' and self._javac_here and x.T1:
             ok, errs = self._javac_ok(x.T1)
             if not ok:
                 vs.append({'rule': 'javac-rejects-erased-program', 'site': 'javac', 'shape': errs[0].code,
@@ -218,10 +231,10 @@ class Oracle:
                         if alarms:
                             a = alarms[0]
                             vs.append({'rule': 'feasible-subset-ill-typed', 'site': 'src/analysis/type_dependency_analysis.py:is_combination_feasible',
-                                       'shape': 'position kind: %s' % a[0],
+                                       'shape': _shape(a),
                                        'function': node.name, 'omitted': [str(n) for n in comb], 'path': a[1],
                                        'expected': a[2], 'found': a[3]})
-                        if lang == 'java' and self.use_javac and self.javac_in_powerset:
+                        if lang == 'java' and self._javac_here and self.javac_in_powerset:
                             pipeline.oracle_choices(x)
                             text = pipeline.translate(pipeline.new_translator('java'), P)
                             ok, errs = self._javac_ok(text)
@@ -264,11 +277,21 @@ class Oracle:
                 n.t.can_infer_type_args = a
 
 
+def family_part(langs, tier='thorough'):
+    """every program of the hand-built family (mc/progfam.py), one erasure and two erasures"""
+    from mc import progfam
+    z = (0, 0, 0, 0)
+    cfgs = [Config(l, z, 'F:%d' % i) for l in langs for i in range(progfam.size())]
+    if tier == 'quick':
+        return [(cfgs, ['first'], 0, 1, 1, 45)]
+    return [(cfgs, ['first'], 0, 1, 1, 45), (cfgs, ['first'], 0, 1, 2, 45)]
+
+
 def plan(tier):
     langs = pipeline.LANGS
     z = (0, 0, 0, 0)
     if tier == 'quick':
-        return [
+        return family_part(langs, tier) + [
             ([Config(l, s, 'S') for l in langs for s in (z, (1, 1, 1, 1))], [('prng', 1), ('prng', 2)], 1, 8, 1),
             ([Config(l, z, 'S') for l in langs], [('prng', 3)], 0, 1, 2),
             ([Config(l, z, lim) for l in langs for lim in ('M', 'D')], [('prng', c) for c in range(1, 25)] + ['first', 'alt'], 0, 1, 1),
@@ -276,7 +299,7 @@ def plan(tier):
     from mc import plans
     out = [(c, p, b, n, 1) for c, p, b, n in plans.thorough(langs, 'heavy')]
     out.append(([Config(l, z, 'S') for l in langs], [('prng', 1), ('prng', 2)], 1, 8, 2))
-    return out
+    return family_part(langs) + out
 
 
 def run(tier, seed, jobs):
@@ -287,9 +310,12 @@ def run(tier, seed, jobs):
     samples = []
     plans = []
     pmax = 4 if tier == 'quick' else 5
-    for configs, policies, bound, nslices, n_er in plan(tier):
+    for part in plan(tier):
+        configs, policies, bound, nslices, n_er = part[:5]
+        chunk = part[5] if len(part) > 5 else None
         kw = {'stages': ('gen', 'erase'), 'n_erasures': n_er}
-        tot = explore.explore(configs, policies, bound, SPEC, {'powerset_max': pmax, 'javac_in_powerset': tier == 'thorough'}, jobs, seed, nslices, run_kw=kw)
+        params = {'powerset_max': pmax, 'javac_in_powerset': tier == 'thorough'}
+        tot = explore.explore(configs, policies, bound, SPEC, params, jobs, seed, nslices, run_kw=kw, chunk=chunk)
         execs += tot.execs
         trans += tot.transitions
         states |= tot.states
@@ -302,7 +328,7 @@ def run(tier, seed, jobs):
         samples.extend(tot.samples[:1])
         plans.append({'configs': len(configs), 'limits': configs[0].limits, 'policies': len(policies),
                       'deviation_bound': bound, 'erasures': n_er, 'executions': tot.execs})
-        validated += explore.validate_fresh(tot, res, kw, SPEC, {'powerset_max': pmax, 'javac_in_powerset': tier == 'thorough'})
+        validated += explore.validate_fresh(tot, res, kw, SPEC, params)
     res.coverage = {
         'states': len(states), 'transitions': trans, 'traces_validated_against_impl': validated,
         'executions': execs, 'samples': samples[:2], 'exploration_plan': plans,
